@@ -3,8 +3,10 @@
 Translated (statement by statement, in source order; anything unrecognised is Untranslatable):
   TaskHandler.__init__ (initial state), __check_open, _next_id, submit_task (check, id, pool.submit, pending store,
   done-callback attached, future returned; also the path on which `pool.submit` itself raises: `submitRejected`), the done-callback (removes its id from the pending map),
-  PushService.push_snapshot (hands `_push_task` to submit_task — or calls it inline), `_push_task` (convert, drop when
-  unconvertible, one send).
+  PushService.push_snapshot (hands `_push_task` to submit_task — or calls it inline), `_push_task` statement by
+  statement (`pushTask`: conversion, the None guard, each `stub.send`, what leaves the task).
+Enumerated: every `submit_task` call site in src/deep (`submitSites`: file, function, whether the refusal of a closed
+  handler is swallowed there, whether the swallowing handler logs at WARNING or above).
 Skeleton (harness/skeleton.py -> Guard.Stmt): TaskHandler.flush — which statement closes the handler, what the loop
   iterates over (a snapshot `list(...)` or the live map), which exception classes the `except` around
   `future.result(...)` catches.  The model reads all of that off the skeleton.
@@ -12,7 +14,7 @@ Skeleton (harness/skeleton.py -> Guard.Stmt): TaskHandler.flush — which statem
 import ast
 
 from pylean import Untranslatable, load, find_def, same_shape, header, lean_str, Translator
-from pystate import StateTranslator, Field, strip_doc, lean_bool
+from pystate import StateTranslator, Field, strip_doc, lean_bool, has_raise
 import skeleton
 
 OUT = 'DeepModel/Extracted/Tasks.lean'
@@ -242,6 +244,139 @@ def gen_push(p):
             f'def dropsUnconvertible : Bool := {lean_bool(drops)}\n')
 
 
+def gen_push_task(p):
+    """`PushService._push_task`, statement by statement: how many `stub.send` attempts it makes and what leaves it, for
+    every behaviour of `convert_snapshot` (a converted snapshot, None, or an exception it does not catch) and of
+    `stub.send` (returns or raises)."""
+    f = find_def(p, 'PushService._push_task')
+    if [a.arg for a in f.args.args] != ['self', 'snapshot']:
+        raise Untranslatable('_push_task signature changed')
+    body = strip_doc(f.body)
+
+    def is_log(s):
+        return isinstance(s, ast.Expr) and isinstance(s.value, ast.Call) and \
+            ast.unparse(s.value.func).split('.')[0] in ('logging',)
+
+    def seq(stmts, ind, have):
+        """`have`: 'unknown' before the conversion, 'converted' / 'none' after it"""
+        pad = ' ' * ind
+        if not stmts:
+            return pad + '(n, none)'
+        s, rest = stmts[0], stmts[1:]
+        src = ast.unparse(s)
+        if isinstance(s, (ast.ImportFrom, ast.Import)) or is_log(s) or isinstance(s, ast.Pass):
+            return seq(rest, ind, have)
+        if src == 'converted = convert_snapshot(snapshot)' and have == 'unknown':
+            return (f'{pad}match conv with\n{pad}| .raises e => (n, some e)\n'
+                    f'{pad}| .isNone =>\n{seq(rest, ind + 2, "none")}\n'
+                    f'{pad}| .converted =>\n{seq(rest, ind + 2, "converted")}')
+        if isinstance(s, ast.If) and ast.unparse(s.test) == 'converted is None' and not s.orelse \
+                and len(s.body) == 1 and isinstance(s.body[0], ast.Return) and s.body[0].value is None \
+                and have != 'unknown':
+            return f'{pad}(n, none)' if have == 'none' else seq(rest, ind, have)
+        if isinstance(s, ast.Assign) and isinstance(s.value, ast.Call) \
+                and ast.unparse(s.value.func) == 'SnapshotServiceStub' and isinstance(s.targets[0], ast.Name):
+            return seq(rest, ind, have)
+        if isinstance(s, ast.Expr) and isinstance(s.value, ast.Call) and isinstance(s.value.func, ast.Attribute) \
+                and s.value.func.attr == 'send' and have != 'unknown':
+            if not s.value.args or ast.unparse(s.value.args[0]) != 'converted':
+                raise Untranslatable('_push_task: send of something else than the converted snapshot: ' + src[:80])
+            return (f'{pad}let n := n + 1\n{pad}match send with\n{pad}| some e => (n, some e)\n'
+                    f'{pad}| none =>\n{seq(rest, ind + 2, have)}')
+        if isinstance(s, ast.Return) and s.value is None:
+            return f'{pad}(n, none)'
+        raise Untranslatable('_push_task: statement outside the subset: ' + src[:80])
+    return ('/-- what `convert_snapshot(snapshot)` gives -/\n'
+            'inductive ConvOut where\n  | converted\n  | isNone\n  | raises (e : Py.Exn)\nderiving Repr, DecidableEq\n\n'
+            '/-- `_push_task`, statement by statement: (send attempts made, the exception that leaves the task).\n'
+            '    `send` is what `stub.send` does (none = it returns) -/\n'
+            'def pushTask (conv : ConvOut) (send : Option Py.Exn) : Nat × Option Py.Exn :=\n'
+            '  let n := 0\n' + seq(body, 2, 'unknown') + '\n')
+
+
+WARN_LOGS = {'warning', 'warn', 'error', 'exception', 'critical', 'fatal'}
+
+
+def _qualnames(tree):
+    """{id(function node): 'Class.method' | 'function'} for every def of a module"""
+    out = {}
+
+    def walk(node, prefix):
+        for n in ast.iter_child_nodes(node):
+            if isinstance(n, (ast.FunctionDef, ast.AsyncFunctionDef)):
+                out[id(n)] = (prefix + n.name, n)
+                walk(n, prefix + n.name + '.')
+            elif isinstance(n, ast.ClassDef):
+                walk(n, prefix + n.name + '.')
+            else:
+                walk(n, prefix)
+    walk(tree, '')
+    return out
+
+
+def gen_submitters(t):
+    """every call of `<something>.submit_task(...)` in src/deep — the in-tree submitters — and what each does with
+    the refusal a closed handler raises: is the call inside a `try` whose `except` matches that class, and if so does
+    the handler log at WARNING or above (or raise again)."""
+    import os
+    import pylean
+    root = os.path.join(pylean.REPO, 'src', 'deep')
+    # the refusal class and its ancestry inside task/__init__.py
+    cf = find_def(t, 'TaskHandler.__check_open')
+    exc = strip_doc(cf.body)[0].body[0].exc
+    refusal = ast.unparse(exc.func if isinstance(exc, ast.Call) else exc)
+    cls = [n for n in t.body if isinstance(n, ast.ClassDef) and n.name == refusal]
+    bases = [ast.unparse(b) for b in cls[0].bases] if cls else []
+    is_exc = bases == ['Exception']
+    sites = []
+    for dirpath, _, files in sorted(os.walk(root)):
+        for fn in sorted(files):
+            if not fn.endswith('.py'):
+                continue
+            full = os.path.join(dirpath, fn)
+            rel = os.path.relpath(full, os.path.join(pylean.REPO, 'src'))
+            try:
+                tree = ast.parse(open(full, encoding='utf-8').read())
+            except SyntaxError as e:
+                raise Untranslatable(f'{rel}: {e}')
+            quals = _qualnames(tree)
+            for qual, fdef in sorted(quals.values(), key=lambda q: q[1].lineno):
+                own = [n for n in ast.walk(fdef) if isinstance(n, ast.Call) and isinstance(n.func, ast.Attribute)
+                       and n.func.attr == 'submit_task']
+                # calls that belong to a nested def are listed under that def
+                nested = [x for x in ast.walk(fdef) if isinstance(x, (ast.FunctionDef, ast.AsyncFunctionDef, ast.Lambda))
+                          and x is not fdef]
+                own = [c for c in own if not any(c in list(ast.walk(nd)) for nd in nested)]
+                for c in own:
+                    swallowed, logs = False, False
+                    for tr in [x for x in ast.walk(fdef) if isinstance(x, ast.Try)]:
+                        if not any(c is y for b in tr.body for y in ast.walk(b)):
+                            continue
+                        for h in tr.handlers:
+                            names = ([ast.unparse(e) for e in h.type.elts] if isinstance(h.type, ast.Tuple)
+                                     else [ast.unparse(h.type)] if h.type is not None else ['BaseException'])
+                            names = [n.split('.')[-1] for n in names]
+                            match = (refusal in names or 'BaseException' in names or (is_exc and 'Exception' in names))
+                            if match and not has_raise(h.body):
+                                swallowed = True
+                                logs = logs or any(isinstance(x, ast.Call) and isinstance(x.func, ast.Attribute)
+                                                   and x.func.attr in WARN_LOGS
+                                                   and 'logging' in ast.unparse(x.func.value)
+                                                   for b in h.body for x in ast.walk(b))
+                    sites.append((rel, qual.replace('._TracepointConfigService__', '.__'), swallowed, logs))
+    if not sites:
+        raise Untranslatable('no submit_task call site found in src/deep')
+    rows = ',\n   '.join(f'⟨{lean_str(r)}, {lean_str(q)}, {lean_bool(sw)}, {lean_bool(lg)}⟩' for r, q, sw, lg in sites)
+    return ('/-- a place in src/deep that hands work to the task handler (`….submit_task(…)`) -/\n'
+            'structure SubmitSite where\n  file : String\n  func : String\n'
+            '  /-- the call stands in a `try` whose `except` matches the refusal of a closed handler and does not raise again -/\n'
+            '  swallowsRefusal : Bool\n'
+            '  /-- that handler logs at WARNING or above -/\n'
+            '  handlerLogs : Bool\nderiving Repr, DecidableEq\n\n'
+            '/-- EVERY `submit_task` call site of src/deep (found by walking all modules), in path / source order -/\n'
+            f'def submitSites : List SubmitSite :=\n  [{rows}]\n')
+
+
 def generate():
     t, p = load(TASK), load(PUSH)
     parts = [header('task handler and push service', [TASK, PUSH]).replace(
@@ -252,5 +387,7 @@ def generate():
     parts.append(gen_submit(t))
     parts.append(gen_flush())
     parts.append(gen_push(p))
+    parts.append(gen_push_task(p))
+    parts.append(gen_submitters(t))
     parts.append('end Extracted.Tasks\n')
     return '\n'.join(parts)
